@@ -11,6 +11,7 @@ wt="${pre}${id}"; sc="${pre}${id}_scratch"
 export GOFLAGS=-mod=mod GOPROXY=off
 cd "$wt" || exit 2
 git checkout -q -- . && git clean -fdq internal cmd
+git checkout -q --detach "$(git -C /repo rev-parse HEAD)" || { echo "FAIL: cannot check out /repo HEAD"; exit 1; }
 git apply "$sc/patch.diff" || { echo "FAIL: patch does not apply"; exit 1; }
 go build ./... || { echo "FAIL: does not build"; exit 1; }
 go test -json -vet=off -count=1 -timeout 25m ./... > "$sc/test.json" 2>/dev/null
